@@ -9,6 +9,7 @@ import (
 
 	math "cosmossdk.io/math"
 	sdk "github.com/cosmos/cosmos-sdk/types"
+	sdkerrors "github.com/cosmos/cosmos-sdk/types/errors"
 )
 
 func (k msgServer) CreatePool(ctx context.Context, msg *types.MsgCreatePool) (*types.MsgCreatePoolResponse, error) {
@@ -36,6 +37,22 @@ func (k msgServer) CreatePool(ctx context.Context, msg *types.MsgCreatePool) (*t
 	baseOffset, err := math.LegacyNewDecFromStr(msg.BaseOffset)
 	if err != nil {
 		return nil, errorsmod.Wrap(err, "invalid base offset")
+	}
+
+	if err := sdk.ValidateDenom(msg.DenomBase); err != nil {
+		return nil, errorsmod.Wrap(types.ErrInvalidBaseDenom, err.Error())
+	}
+	if err := sdk.ValidateDenom(msg.DenomQuote); err != nil {
+		return nil, errorsmod.Wrap(types.ErrInvalidQuoteDenom, err.Error())
+	}
+	if feeRate.IsNegative() || feeRate.GTE(math.LegacyOneDec()) {
+		return nil, errorsmod.Wrap(sdkerrors.ErrInvalidRequest, "fee rate must be in [0, 1)")
+	}
+	if !priceRatio.GT(math.LegacyOneDec()) {
+		return nil, errorsmod.Wrap(sdkerrors.ErrInvalidRequest, "price ratio must be greater than 1")
+	}
+	if baseOffset.IsNegative() || baseOffset.GTE(math.LegacyOneDec()) {
+		return nil, errorsmod.Wrap(sdkerrors.ErrInvalidRequest, "base offset must be in [0, 1)")
 	}
 
 	var pool = types.Pool{
